@@ -822,10 +822,10 @@ func TestVerifC08(t *testing.T) {
 	defer h.fc.close()
 	h.runExhaustive(t)
 	h.runShapes(t)
-	h.runHandWritten(t, kit.N(600, 20000))
-	h.runRandom(t, kit.N(6000, 300000))
-	h.runHTTP(t, kit.N(2500, 80000))
-	h.runDamaged(t, kit.N(1500, 50000))
+	h.runHandWritten(t, kit.N(900, 10000))
+	h.runRandom(t, kit.N(10000, 250000))
+	h.runHTTP(t, kit.N(4000, 60000))
+	h.runDamaged(t, kit.N(2500, 30000))
 	kit.Obs("inputs_written_to_disk_before_the_call", h.fc.writes)
 	kit.End()
 }
